@@ -562,7 +562,7 @@ func (fn FirstValue) CheckArgsLen(expr parser.AnalyticFunction) error {
 }
 
 func (fn FirstValue) Execute(ctx context.Context, scope *ReferenceScope, partition Partition, expr parser.AnalyticFunction) (map[int]value.Primary, error) {
-	return setNthValue(ctx, scope, partition, expr, 1)
+	return setNthValue(ctx, scope, partition, expr, 1, false)
 }
 
 type LastValue struct{}
@@ -572,8 +572,13 @@ func (fn LastValue) CheckArgsLen(expr parser.AnalyticFunction) error {
 }
 
 func (fn LastValue) Execute(ctx context.Context, scope *ReferenceScope, partition Partition, expr parser.AnalyticFunction) (map[int]value.Primary, error) {
+	if expr.AnalyticClause.WindowingClause != nil {
+		// an explicit frame is relative to the current row in the order of the partition:
+		// take the last value of that frame
+		return setNthValue(ctx, scope, partition, expr, 1, true)
+	}
 	partition.Reverse()
-	return setNthValue(ctx, scope, partition, expr, 1)
+	return setNthValue(ctx, scope, partition, expr, 1, false)
 }
 
 type NthValue struct{}
@@ -598,10 +603,10 @@ func (fn NthValue) Execute(ctx context.Context, scope *ReferenceScope, partition
 		return nil, NewFunctionInvalidArgumentError(expr, expr.Name, "the second argument must be greater than 0")
 	}
 
-	return setNthValue(ctx, scope, partition, expr, n)
+	return setNthValue(ctx, scope, partition, expr, n, false)
 }
 
-func setNthValue(ctx context.Context, scope *ReferenceScope, partition Partition, expr parser.AnalyticFunction, n int) (map[int]value.Primary, error) {
+func setNthValue(ctx context.Context, scope *ReferenceScope, partition Partition, expr parser.AnalyticFunction, n int, fromLast bool) (map[int]value.Primary, error) {
 	frameSet := WindowFrameSet(partition, expr.AnalyticClause)
 	list := make(map[int]value.Primary, len(partition))
 
@@ -612,7 +617,11 @@ func setNthValue(ctx context.Context, scope *ReferenceScope, partition Partition
 		var val value.Primary = value.NewNull()
 		count := 0
 
-		for i := frame.Low; i <= frame.High; i++ {
+		for pos := frame.Low; pos <= frame.High; pos++ {
+			i := pos
+			if fromLast {
+				i = frame.High - (pos - frame.Low)
+			}
 			if i < 0 || len(partition) <= i {
 				continue
 			}
